@@ -440,3 +440,27 @@ def by_tag(results):
     for r in results:
         out.setdefault(str(r['tag']), []).append(r)
     return out
+
+
+# --------------------------------------------------------------------------
+# file-level constraint: does it apply to a file?
+# --------------------------------------------------------------------------
+
+def restricted_defs(scn):
+    """ defs registered anywhere with allow_global_constraints=False """
+    return {r[0] for r in scn['regs'] if len(r) > 2 and not r[2]}
+
+
+def defs_on_file(scn, fidx):
+    out = []
+    for r in scn['regs']:
+        if r[1] == fidx or (not isinstance(r[1], int) and
+                            fidx in scn.get('_expanded', {}).get(r[1], [])):
+            out.append(r[0])
+    return out
+
+
+def global_applies(scn, fidx):
+    if scn.get('global') is None:
+        return False
+    return not (restricted_defs(scn) & set(defs_on_file(scn, fidx)))
